@@ -61,6 +61,15 @@ def Hex.rangeIncl (h : Hex) (s e : Nat) : Option (List UInt8) :=
   | .vector v => sliceIncl v s e
   | .inline a len => if e < len then sliceIncl a s e else none
 
+/-- a `RangeInclusive` that was iterated to its end carries the flag `exhausted`; `into_slice_range` turns `s..=e` into
+    `e+1 .. e+1` then: the empty slice if `e` is an index of the slice, a panic otherwise, whatever `s` -/
+def sliceInclX (bs : List UInt8) (e : Nat) : Option (List UInt8) := if e < bs.length then some [] else none
+
+def Hex.rangeInclX (h : Hex) (e : Nat) : Option (List UInt8) :=
+  match h with
+  | .vector v => sliceInclX v e
+  | .inline a len => if e < len then sliceInclX a e else none
+
 def Hex.rangeTo (h : Hex) (e : Nat) : Option (List UInt8) :=
   match h with
   | .vector v => sliceRange v 0 e
@@ -152,6 +161,17 @@ theorem rangeFull_eq (h : Hex) (w : h.WF) : h.rangeFull = some h.toBytes := by
     simp only [Hex.rangeFull, Hex.toBytes, sliceRange]
     have : 0 ≤ len ∧ len ≤ a.length := ⟨Nat.zero_le _, by omega⟩
     rw [if_pos this]; simp
+
+theorem rangeInclX_eq (h : Hex) (w : h.WF) (e : Nat) : h.rangeInclX e = sliceInclX h.toBytes e := by
+  cases h with
+  | vector v => rfl
+  | inline a len =>
+    obtain ⟨h8, hl⟩ := w
+    simp only [Hex.rangeInclX, Hex.toBytes, sliceInclX]
+    have hl' : (a.take len).length = len := by simp; omega
+    by_cases he : e < len
+    · rw [if_pos he, if_pos (by omega)]; symm; exact if_pos (by rw [hl']; exact he)
+    · rw [if_neg he]; symm; exact if_neg (by rw [hl']; exact he)
 
 theorem rangeIncl_eq (h : Hex) (w : h.WF) (s e : Nat) : h.rangeIncl s e = sliceIncl h.toBytes s e := by
   cases h with
